@@ -2,6 +2,10 @@ SPECIFICATION Spec
 CONSTANTS
   MonthlyLens = {15, 24, 25, 30, 35, 36, 40}
   BimonthlyLens = {24, 25, 59, 61, 70, 71}
+  CalLens = {20, 25, 30, 31, 35, 36, 61, 70, 71}
+  CalLen = 5
 INVARIANT Conservation
+INVARIANT CycleReadingsExclusive
+INVARIANT CalendarConservation
 INVARIANT CoverageRuleMonotone
 INVARIANT MissingIndicesDistinct
